@@ -183,7 +183,9 @@ class FakeQueue:
         if not self.items and _sched.pos >= len(_sched.decisions) and _sched.tail == "lazy":
             _sched.lazy_kick()
         if self.items:
-            return self.items.pop(0)
+            import pickle
+            # results cross a process boundary: what the worker pickled must be loadable by the parent
+            return pickle.loads(pickle.dumps(self.items.pop(0)))
         _sched.empties += 1
         if _sched.empties > 200:
             raise RuntimeError("VT-NONTERMINATION: parent polled an empty queue 200 times without progress")
